@@ -492,7 +492,20 @@ def _emit_items(items, ind, method, out):
         else:
             out.append("%s@lcc.suite(%s)" % (pad, _call_args(it["desc"], name=it["name"], rank=it["rank"])))
         if it["cond"] is not None:
-            out.append("%s@lcc.visible_if(lambda _: %r)" % (pad, bool(it["cond"])))
+            # the same visibility written in the ways the API offers (chosen by the item's name, so that a layout is one text):
+            # visible_if, hidden(), and two stacked decorators of which the upper one -- applied last -- decides
+            import zlib
+            form = zlib.crc32(("%s/%s" % (it.get("attr"), it.get("name"))).encode()) % 5
+            if form == 0 and not it["cond"]:
+                out.append("%s@lcc.hidden()" % pad)
+            elif form == 1:
+                out.append("%s@lcc.visible_if(lambda _: %r)" % (pad, bool(it["cond"])))
+                out.append("%s@lcc.hidden()" % pad if it["cond"] else "%s@lcc.visible_if(lambda _: True)" % pad)
+            elif form == 2 and not it["cond"]:
+                out.append("%s@lcc.hidden()" % pad)
+                out.append("%s@lcc.visible_if(lambda _: True)" % pad)
+            else:
+                out.append("%s@lcc.visible_if(lambda _: %r)" % (pad, bool(it["cond"])))
         if it["disabled"]:
             out.append("%s@lcc.disabled()" % pad)
         if it["tags"]:
